@@ -512,6 +512,11 @@ impl Sim {
                 let d = format!("{}: own-storage read #{} returned {:?} expected {:?}", at, j, r.reads.get(j), m.reads.get(j));
                 self.v(&["C08", "C02", "C06", "C12"], "in_call_read", d);
             }
+            if r.post_reads != m.post_reads {
+                let j = r.post_reads.iter().zip(m.post_reads.iter()).position(|(a, b)| a != b).unwrap_or(0);
+                let d = format!("{}: read-back #{} after the call's own writes returned {:?} expected {:?}", at, j, r.post_reads.get(j), m.post_reads.get(j));
+                self.v(&["C08", "C06", "C07"], "read_back", d);
+            }
             if !self.viol.is_empty() {
                 return;
             }
@@ -740,7 +745,7 @@ impl Sim {
                 let m = MsgSpec::Send { to: to.clone(), coins: coins.clone() };
                 self.op_helper(*sender, &m)
             }
-            Op::Block { set, dh, dt, abs_h } => self.op_block(*set, *dh, *dt, *abs_h),
+            Op::Block { set, dh, dt, abs_h, dn, chain, zero_time } => self.op_block(*set, *dh, *dt, *abs_h, *dn, *chain, *zero_time),
             Op::External { target, k, v } => self.op_external(target, k, v.as_deref()),
             Op::Queries => self.op_queries(),
         }
@@ -1093,11 +1098,21 @@ impl Sim {
         self.viol.is_empty()
     }
 
-    fn op_block(&mut self, set: bool, dh: u64, dt: u64, abs_h: Option<u64>) -> bool {
+    #[allow(clippy::too_many_arguments)]
+    fn op_block(&mut self, set: bool, dh: u64, dt: u64, abs_h: Option<u64>, dn: u32, chain: Option<u8>, zero_time: bool) -> bool {
         let before = self.pre_step();
         let cur = self.app.block_info();
         let new_height = abs_h.unwrap_or_else(|| cur.height.saturating_add(dh));
-        let new = BlockInfo { height: new_height, time: cur.time.plus_seconds(dt), chain_id: cur.chain_id.clone() };
+        let new_time = if zero_time && self.model.names.validators.is_empty() {
+            cosmwasm_std::Timestamp::from_nanos(0)
+        } else {
+            cur.time.plus_seconds(dt).plus_nanos(dn as u64)
+        };
+        let new_chain = match chain {
+            Some(c) => format!("chain-{}", c),
+            None => cur.chain_id.clone(),
+        };
+        let new = BlockInfo { height: new_height, time: new_time, chain_id: new_chain.clone() };
         let app = &mut self.app;
         let nb = new.clone();
         let real = if set {
@@ -1109,7 +1124,8 @@ impl Sim {
             guarded(|| {
                 app.update_block(|b| {
                     b.height = new_height;
-                    b.time = b.time.plus_seconds(dt);
+                    b.time = new_time;
+                    b.chain_id = new_chain.clone();
                 });
                 Ok(vec![])
             })
@@ -1121,6 +1137,7 @@ impl Sim {
             &before,
             real,
             |m| {
+                m.chain_id = new.chain_id.clone();
                 m.advance_block(new.height, new.time.nanos());
                 Ok(vec![])
             },
@@ -1185,7 +1202,7 @@ impl Sim {
             let c = Target::Contract(*s);
             qs.push(QueryOp::AllBalances { who: c.clone() });
             qs.push(QueryOp::ContractInfo { contract: c.clone() });
-            qs.push(QueryOp::Smart { contract: c.clone(), keys: vec![b"a".to_vec(), vec![], b"zz".to_vec()] });
+            qs.push(QueryOp::Smart { contract: c.clone(), keys: vec![b"a".to_vec(), vec![], b"zz".to_vec()], scan: true, chain: vec![] });
             let addr = names.target(&c, "");
             let keys: Vec<Vec<u8>> = self.model.s.kv.get(&addr).map(|m| m.keys().cloned().collect()).unwrap_or_default();
             for k in keys.iter().take(6) {
@@ -1193,6 +1210,13 @@ impl Sim {
             }
             qs.push(QueryOp::Raw { contract: c.clone(), key: KeySpec::Lit(b"absent-key".to_vec()) });
             qs.push(QueryOp::Raw { contract: c.clone(), key: KeySpec::Lit(vec![]) });
+        }
+        // nested smart queries (depth 2 .. 6) through the existing contracts
+        if !slots.is_empty() {
+            for depth in [1usize, 3, 5] {
+                let chain: Vec<Target> = (0..depth).map(|i| Target::Contract(slots[(i + 1) % slots.len()])).collect();
+                qs.push(QueryOp::Smart { contract: Target::Contract(slots[0]), keys: vec![b"init".to_vec()], scan: false, chain });
+            }
         }
         qs.push(QueryOp::ContractInfo { contract: Target::Invalid });
         qs.push(QueryOp::Balance { who: Target::Invalid, denom: 0 });
